@@ -838,7 +838,7 @@ func (p *parser) textOf(a, b int) string {
 
 var clauseKeywords = map[string]bool{"requires": true, "ensures": true, "modifies": true, "decreases": true, "pure": true,
 	"mode": true, "props": true, "loop": true, "call": true, "trusted": true, "noovf": true, "invariant": true,
-	"allocates": true, "autoframe": true, "ensures_assumed": true, "hint": true, "uses": true, "panics_if": true, "terminates": true, "opaque": true, "let": true, "mathints": true, "funcparam": true}
+	"allocates": true, "autoframe": true, "ensures_assumed": true, "requires_assumed": true, "hint": true, "uses": true, "panics_if": true, "terminates": true, "opaque": true, "let": true, "mathints": true, "funcparam": true}
 
 func (p *parser) atItemEnd() bool {
 	t := p.peek()
@@ -959,6 +959,20 @@ func (p *parser) parseFuncContract() (*FuncContract, error) {
 			if err != nil {
 				return nil, err
 			}
+			fc.Requires = append(fc.Requires, c)
+			curLoop = nil
+		case "requires_assumed":
+			// a representation invariant the body relies on: assumed on entry, NOT checked at call sites, listed as
+			// an assumption of every run that uses the function
+			if p.peek().k != "str" {
+				return nil, p.errf("requires_assumed needs a reason string")
+			}
+			reason := p.adv().s
+			c, err := p.parseClauseExpr("requires")
+			if err != nil {
+				return nil, err
+			}
+			c.Assumed = reason
 			fc.Requires = append(fc.Requires, c)
 			curLoop = nil
 		case "ensures":
